@@ -1,7 +1,25 @@
 import Model.Common.Proto
 import Model.C18.Fee
+import Model.C18.Funding
 import Generated.Fee
 open Btc Btc.C18
+
+def sumCsv? (s : String) (dropKind : Bool := false) : Option (Int × Nat) :=
+  if s == "_" then some (0, 0) else
+  (s.splitOn ",").foldl (fun acc t => do
+    let (a, n) ← acc
+    let v ← parseInt? (if dropKind then String.ofList (t.toList.drop 1) else t)
+    pure (a + v, n + 1)) (some (0, 0))
+
+/-- estimator token: an integer, `E` (the estimator raised BTClibValueError), `NA` (never consulted) -/
+def estTok? (s : String) : Option (Except Py.PyErr Int) :=
+  if s == "E" then some (.error .value) else if s == "NA" then some (.error .foreign)
+  else (parseInt? s).map .ok
+
+def renderFunded (r : Except Py.PyErr Funded) : String :=
+  match r with
+  | .ok f => s!"ok {f.fee} " ++ (match f.change with | some c => toString c | none => "None")
+  | .error e => "err " ++ e.name
 
 /-- line protocol of property C18: see harness/c18.py -/
 def handle : List String → String
@@ -26,6 +44,14 @@ def handle : List String → String
     match fromHex? hex with
     | some s => if isSegwit s then "ok True" else "ok False"
     | none => "bad-op"
+  | ["funding.build", _mode, ins, outs, rate, change, dustRate, e1, e2] =>
+    match sumCsv? ins true, sumCsv? outs, parseInt? rate, parseInt? dustRate, estTok? e1, estTok? e2 with
+    | some (ti, _), some (to, n), some r, some d, some e1, some e2 =>
+      let ch : Option (Option Bytes) := if change == "None" then some none else (fromHex? change).map some
+      match ch with
+      | some ch => renderFunded (fund ⟨ti, to, n, r, ch, d⟩ (fun b => if b then e1 else e2))
+      | none => "bad-op"
+    | _, _, _, _, _, _ => "bad-op"
   | _ => "bad-op"
 
 def main : IO Unit := runLoop handle
